@@ -10,7 +10,7 @@ RULE = ('truth tables: exhaustive 2^16 byte pairs for ct_eq/ct_ne and all 256 by
 ASSUMPTIONS = ["Python's ==, <, <=, >, >= on integers and bytes"]
 FLOORS = {'evaluations': 8000, 'distinct': 6000}
 EXHAUSTIVE = False
-B64 = [0, 1, 2, (1 << 31) - 1, 1 << 31, (1 << 32) - 1, 1 << 32, (1 << 32) + 1, (1 << 63) - 1, 1 << 63, (1 << 63) + 1, (1 << 64) - 2, (1 << 64) - 1, 0x8000000080000000, 0x7fffffff7fffffff]
+B64 = [0, 1, 2, 0x100000001, 0xfffffffeffffffff, 0x0000000100000000, 0xdeadbeefdeadbeef, (1 << 31) - 1, 1 << 31, (1 << 32) - 1, 1 << 32, (1 << 32) + 1, (1 << 63) - 1, 1 << 63, (1 << 63) + 1, (1 << 64) - 2, (1 << 64) - 1, 0x8000000080000000, 0x7fffffff7fffffff]
 
 
 def gen(tier, seed):
@@ -86,6 +86,11 @@ def gen(tier, seed):
             yield 'macres_eq %s %s #macres-lendiff' % (t.hex(), t[:-1].hex() or '-')
             yield 'macres_eq %s %s #macres-lendiff' % (t.hex(), (t + b'\0').hex())
             yield 'macres_eq %s %s #macres-lendiff' % (t[:-1].hex() or '-', t.hex())
+    for n, d in ((0, 256), (1, 256), (16, 256), (32, 256), (32, 512), (20, 768), (64, 65536), (0, 65536)):
+        t = rng.bytes(n)
+        for tail in (bytes(d), rng.bytes(d)):
+            yield 'macres_eq %s %s #macres-lendiff256' % (t.hex() or '-', (t + tail).hex())
+            yield 'macres_eq %s %s #macres-lendiff256' % ((t + tail).hex(), t.hex() or '-')
     for _ in range(4):
         t = rng.bytes(16)
         yield 'tag_eq %s %s #tag-equal' % (t.hex(), t.hex())
